@@ -1180,6 +1180,10 @@ def ite(c, a, b):
     if isinstance(a, symarr.SArr) or isinstance(b, symarr.SArr) or isinstance(c, symarr.SArr):
         return symarr.where(c, a, b)
     cz = c.z
+    if isinstance(a, symarr.Sigma) or isinstance(b, symarr.Sigma):
+        # a choice between sums: ind * a + (1 - ind) * b with the indicator of the condition (Sigma-terms scale by scalars)
+        ind = SReal(z3.If(cz, z3.RealVal(1), z3.RealVal(0)))
+        return a * ind + b * (1 - ind)
     if isinstance(a, Cx) or isinstance(b, Cx) or isinstance(a, complex) or isinstance(b, complex):
         a, b = Cx.lift(a), Cx.lift(b)
         return Cx.from_reim(SReal(z3.If(cz, a.re.z, b.re.z)), SReal(z3.If(cz, a.im.z, b.im.z)))
